@@ -682,7 +682,13 @@ func (x *Exec) call(fr *Frame, st *State, in ssa.Instruction, c *ssa.CallCommon,
 	if fr.con != nil && len(fr.con.AssertAt) > 0 {
 		lbl := x.label(fr.fn, in, "call")
 		for i, a := range fr.con.AssertAt[lbl] {
-			x.specCheck(fr, st, fmt.Sprintf("assert@%s[%d]", lbl, i), "assert", a, nil, in)
+			if fr.depth == 0 {
+				x.rebindOK = true
+			}
+			func() {
+				defer func() { x.rebindOK = false }()
+				x.specCheck(fr, st, fmt.Sprintf("assert@%s[%d]", lbl, i), "assert", a, nil, in)
+			}()
 		}
 		if fr.depth == 0 && fr.con.Opts["stop-at"] != "" && "call:"+fr.con.Opts["stop-at"] == lbl {
 			// the contract only speaks about the state reached here: the rest of the function is not explored
